@@ -49,6 +49,7 @@ TOP = {
     "Direct": ["PV.Direct.greens_solves", "PV.Direct.constrained_injective"],
     "DirectMatrix": ["PV.Direct.matrix_greens_solves", "PV.Direct.matrix_constrained_injective"],
     "Rename": ["PV.Rename.pushHom", "PV.Rename.push_law", "PV.Rename.renameHom", "PV.Rename.rename_law", "PV.Rename.rename_law_injective", "PV.Rename.power_law"],
+    "DirectSum": ["PV.DirectSum.prodBlocks", "PV.DirectSum.prodUnperturbed", "PV.DirectSum.direct_sum_law"],
     "Laws": ["PV.Laws.scaleHom", "PV.Laws.scale_law", "PV.Laws.conj_law", "PV.Laws.coeff_hom_law", "PV.Laws.perm_law", "PV.Laws.unitary_law"],
     "Unique": ["PV.lsa_unique", "PV.code_least_action", "PV.C03_unique", "PV.shift_cov", "PV.scale_cov", "PV.natural"],
     "UniqueNH": ["PV.nh_unique", "PV.NH.code_least_action", "PV.natural_nh", "PV.C05_hermitian_limit"],
